@@ -53,6 +53,9 @@ def Ty.toLat : Ty → Option Pcore.Lat.Ty
   | .collection lo hi => some (.coll ⟨lo, hi⟩)
   | .tuple ts sz => (Ty.toLatList ts).map fun us => .tuple us (sz.map fun p => ⟨p.1, p.2⟩)
   | .struct ms => (Ty.toLatMembers ms).map .struct
+  | .callable _ _ _ => none
+  | .runtime _ _ _ => none
+  | .typeRef _ => none
 def Ty.toLatList : List Ty → Option (List Pcore.Lat.Ty)
   | [] => some []
   | t :: ts => (Ty.toLat t).bind fun u => (Ty.toLatList ts).map fun us => u :: us
